@@ -15,6 +15,7 @@
 -/
 import DateutilVerif.Proofs.ParserTotal
 import DateutilVerif.Proofs.LexerBound
+import DateutilVerif.Proofs.ParserWrites
 
 namespace C14
 open PM Py
@@ -101,6 +102,20 @@ theorem lex_output_bounded (cls : Char → CClass) (s : List Char) :
     (`fuel = 0` is reached by structural recursion whatever the steps did) -/
 theorem parse_terminates (cls : Char → CClass) (info : Info) (fuzzy : Bool) (lenL i skip : Nat) (st : PState) :
     parseLoop cls info fuzzy lenL 0 i skip st = .ok st := rfl
+
+/-- **where state could leak**: `_parse` writes into its token list (the object `_timelex.split` returned) in exactly
+    one situation — a token that can be a zone name (upper-case ≤ 5 letters / UTC alias, after an hour, no zone yet)
+    followed by `+` or `-`: that sign token is replaced by the opposite sign.  Every other iteration leaves the list
+    as it was.  (So a token list shared between calls — a cache, an interned default — changes the second call's
+    result exactly for texts of the shape `… NAME±…`; the harness parses that family repeatedly, as the same and as an
+    equal str object, and compares every answer with the first one and with this model.) -/
+theorem token_list_written_only_by_sign_flip (cls : Char → CClass) (info : Info) (fuzzy : Bool) (lenL i : Nat)
+    (st : PState) (r : Nat × PState) (h : parseStep cls info fuzzy lenL i st = .ok r) :
+    r.2.l = st.l ∨
+    ∃ name sign, st.l[i]? = some name ∧ couldBeTzname info st.res.hour st.res.tzname st.res.tzoffset name = true ∧
+      st.l[i + 1]? = some sign ∧ (sign = ['+'] ∨ sign = ['-']) ∧
+      r.2.l = st.l.set (i + 1) (if sign = ['+'] then ['-'] else ['+']) :=
+  parseStep_writes cls info fuzzy lenL i st r h
 
 /-- the outcome is a function of the arguments (purity of the model; the "no state left behind"
     clause is the correspondence over call sequences) -/
